@@ -937,25 +937,32 @@ def run_property(pid, tier, seed):
     # native bounded-exhaustive hunt (harness `grexv hunt`): sibling-branch families and small subsets, judged in-process;
     # every hit goes through implementation + model + known-finding classes like any generated case. Runs when the tie of a
     # structure stage is broken and nothing so far violates the property, and always in the thorough tier.
-    structure = bool(set(spec['stages']) & {'trie', 'min', 'expr', 'final'}) and not spec.get('runner') and spec.get('special') != 'c09'
-    structure_broken = bool(set(stage_diffs) & {'trie', 'min', 'expr', 'final'})
+    structure = bool(set(spec['stages']) & {'trie', 'min', 'expr', 'final', 'out'}) and not spec.get('runner') and spec.get('special') != 'c09'
+    structure_broken = bool(set(stage_diffs) & {'trie', 'min', 'expr', 'final', 'out', 'clusters_r'})
     if structure and ((diff_cases and not unknown and structure_broken) or tier == 'thorough'):
         after_break = bool(diff_cases and not unknown and structure_broken)
-        hcfgs = []
-        budget = 25 if tier == 'quick' else 90
-        for fl_ in ((['r'] if 'r' in spec['flags'] else []) + ([] if 'r' in spec.get('force', []) else [''])):
-            hcfgs.append({'family': 'sib', 'alpha': 'ab', 'f': fl_, 'oracle': 'unmatched', 'budget_s': budget, 'maxlen': 3, 'kmax': 3, 'max_hits': 6})
-            hcfgs.append({'family': 'sib', 'alpha': 'abc', 'f': fl_, 'oracle': 'unmatched', 'budget_s': budget, 'maxlen': 3, 'kmax': 2, 'max_hits': 6})
-            if fl_ == '' and spec.get('lang'):
-                hcfgs.append({'family': 'sub', 'alpha': 'ab', 'f': '', 'oracle': 'lang', 'budget_s': budget, 'maxlen': 3, 'kmax': 4, 'max_hits': 6})
+        budget = 20 if tier == 'quick' else 60
+        fsets = []
         # the options of the inputs on which implementation and model differ come first
-        seenf = set((h['f']) for h in hcfgs)
-        for c in diff_cases[:3]:
-            if c['f'] not in seenf and 'c' not in c['f'].split(',') and 'E' not in c['f'].split(','):
-                seenf.add(c['f'])
-                only_sound = any(x in c['f'].split(',') for x in ('r', 'ns', 'ne', 'i'))
-                hcfgs.insert(0, {'family': 'sib', 'alpha': 'ab', 'f': c['f'], 'mr': c.get('mr', 1), 'ms': c.get('ms', 1),
-                                 'oracle': 'unmatched' if only_sound or not spec.get('lang') else 'lang', 'budget_s': budget, 'maxlen': 3, 'kmax': 3, 'max_hits': 6})
+        for c in diff_cases[:6]:
+            fl_c = c['f'].split(',') if c['f'] else []
+            if 'c' in fl_c or 'E' in fl_c or 'i' in fl_c:
+                continue
+            key_ = (c['f'], c.get('mr', 1), c.get('ms', 1))
+            if key_ not in fsets and len(fsets) < 2:
+                fsets.append(key_)
+        for fl_ in ((['r'] if 'r' in spec['flags'] else []) + ([] if 'r' in spec.get('force', []) else [''])):
+            if (fl_, 1, 1) not in fsets:
+                fsets.append((fl_, 1, 1))
+        hcfgs = []
+        for (fl_, mr_, ms_) in fsets:
+            fparts = fl_.split(',') if fl_ else []
+            only_sound = any(x in fparts for x in ('r', 'ns', 'ne', 'i', 'd', 'w', 's', 'D', 'W', 'S'))
+            hcfgs.append({'family': 'rand', 'alpha': 'abc', 'f': fl_, 'mr': mr_, 'ms': ms_, 'oracle': 'unmatched', 'budget_s': budget, 'maxlen': 3, 'max_hits': 6, 'seed': seed + 1})
+            hcfgs.append({'family': 'sib', 'alpha': 'ab', 'f': fl_, 'mr': mr_, 'ms': ms_, 'oracle': 'unmatched', 'budget_s': budget, 'maxlen': 3, 'kmax': 3, 'max_hits': 6})
+            hcfgs.append({'family': 'sib', 'alpha': 'abc', 'f': fl_, 'mr': mr_, 'ms': ms_, 'oracle': 'unmatched', 'budget_s': budget, 'maxlen': 3, 'kmax': 2, 'max_hits': 6})
+            if not only_sound and spec.get('lang'):
+                hcfgs.append({'family': 'sub', 'alpha': 'ab', 'f': fl_, 'oracle': 'lang', 'budget_s': budget, 'maxlen': 3, 'kmax': 4, 'max_hits': 6})
         hstats = []
         hmuts = []
         for hc in hcfgs:
@@ -965,7 +972,12 @@ def run_property(pid, tier, seed):
             except Exception:
                 hstats.append({'config': hc, 'error': (err or outm)[-300:]}); continue
             hstats.append({k: hr.get(k) for k in ('family', 'alpha', 'f', 'oracle', 'evaluated', 'exhaustive', 'elapsed_s')} | {'hits': len(hr.get('hits', []))})
-            for h in hr.get('hits', [])[:6]:
+            seen_h = set()
+            for h in hr.get('hits', [])[:12]:
+                kh = json.dumps(h['tcs'])
+                if kh in seen_h:
+                    continue
+                seen_h.add(kh)
                 hmuts.append({'tcs': h['tcs'], 'f': hc['f'], 'mr': hc.get('mr', 1), 'ms': hc.get('ms', 1), 'alpha': 'hunt-' + hc['family'],
                               'lang': bool(spec.get('lang')), 'lang_anchor': pid == 'C08'})
             if hmuts and after_break:
